@@ -96,6 +96,8 @@ type replica struct {
 	during     string
 	lastBuf    *snapBuf
 	ctxs       map[int]*snapCtx
+	inUpdate   bool
+	notifs     [][2]uint64
 }
 
 type evalImage struct {
@@ -218,8 +220,22 @@ func (w *world) newFSM(r *replica, fs *crashfs.FS) *fsm.FSM {
 	if r.format == 1 {
 		srt = fsm.RecoveryTypeCheckpoint
 	}
-	s := fsm.New(tableName, baseDir, fs, w.cache, nil, srt, nil)(shardID, uint64(r.id+1))
-	return s.(*fsm.FSM)
+	var self *fsm.FSM
+	// the applied-index listener (what a follower's notification queue hangs on): when it is told about
+	// an index, a read on the same node must already observe it (C11, first sentence)
+	af := func(applied uint64) {
+		if self == nil || !r.inUpdate {
+			return
+		}
+		res, err := self.Lookup(fsm.LocalIndexRequest{})
+		if err != nil {
+			return
+		}
+		r.notifs = append(r.notifs, [2]uint64{applied, res.(*fsm.IndexResponse).Index})
+	}
+	s := fsm.New(tableName, baseDir, fs, w.cache, nil, srt, af)(shardID, uint64(r.id+1))
+	self = s.(*fsm.FSM)
+	return self
 }
 
 func installKnobs(cfg *Cfg) {
@@ -427,8 +443,24 @@ func (w *world) applyBatch(r *replica, n int) bool {
 	var res []sm.Entry
 	var err error
 	r.inStep.Store(true)
+	r.notifs = r.notifs[:0]
+	r.inUpdate = true
 	cp := guard(func() { res, err = r.sm.Update(ents) })
+	r.inUpdate = false
 	r.inStep.Store(false)
+	if cp == nil && err == nil {
+		if len(r.notifs) == 0 {
+			w.fail("C11", "no-apply-notification", "no-apply-notification", "Update of entries up to %d did not notify the applied-index listener", ents[n-1].Index)
+			return false
+		}
+		for _, nf := range r.notifs {
+			if nf[1] < ents[n-1].Index {
+				w.fail("C11", "notified-before-visible", "notified-before-visible", "the applied-index listener was told about index %d while a read on the same node still reports applied index %d (batch ends at %d): a waiter released now would not observe its write", nf[0], nf[1], ents[n-1].Index)
+				return false
+			}
+		}
+		w.out.Probe("apply-notification-checked")
+	}
 	if cp != nil {
 		w.fail("C01", "update-panic", "update-panic:"+repoFrame(cp.stack), "Update panicked: %v\n%s", cp.val, cp.stack)
 		return false
